@@ -294,3 +294,45 @@ def declare(st, value, ranges=None):
     walk(value)
     for k, r in (ranges or {}).items():
         st.rng[k] = list(r)
+
+
+def asm_not_pure(chk, I, rule, files, floor):
+    """every inline-asm block in the given source files reads or changes machine / device state that other instructions
+    change, so none may be marked `pure` (rustc may then merge repeated blocks or drop one whose result is unused)"""
+    n = 0
+    for f in I.facts['fns']:
+        loc = f.get('loc') or ''
+        if not any(loc.startswith(x) or ('/' + x) in loc for x in files):
+            continue
+        for b in f['blocks']:
+            t = b['t']
+            if t and t['k'] == 'asm':
+                n += 1
+                chk.ob(rule, '%s: asm block is not `pure`' % f['name'], 'PURE' not in t['opts'], 'options %s' % t['opts'], t['loc'], nontrivial=False)
+    chk.floor('%s: asm blocks scanned for `pure`' % rule, n, floor)
+    return n
+
+
+def entry_pred_is_all_zero(I, pred):
+    """does the predicate handed to Iterator::all (a fn item or a closure over &PageTableEntry) hold exactly for an
+    all-zero entry?"""
+    from ..bits import eq0_bit
+    from ..values import FnItem
+    PTE = 'structures::paging::page_table::PageTableEntry'
+    st = State()
+    eref = arg_obj(st, 'e', Struct(PTE, [BV.sym(64, 'e')]))
+    if isinstance(pred, FnItem):
+        f = I.fn.get(pred.c['name']) or I.fn.get((pred.c.get('res') or {}).get('name'))
+        if f is None:
+            return False
+        outs = I.run_fn(f, [eref], st, {})
+    elif isinstance(pred, Closure):
+        loc = ('obj', 'clo-env')
+        st.mem[loc] = pred
+        cf = I.fn[pred.name]
+        envarg = Ref(loc) if cf['locals'][1].get('k') == 'ref' else pred
+        outs = I.run_fn(cf, [envarg, eref], st, {})
+    else:
+        return False
+    want = BV(1, [eq0_bit(tuple(sl('e', 0, 64)))])
+    return len(outs) == 1 and outs[0].kind == 'ret' and isinstance(outs[0].val, BV) and same(outs[0].val, want)
